@@ -34,7 +34,13 @@ func reregOne(c *vf.Ctx, seed int64, batch, iter int, race bool) {
 	}
 	var all []*swk
 	var mu sync.Mutex
+	// lastWorker mode: one name, no bystanders, Run waiting: every exit drops the number of running
+	// workers to zero (Run is woken) while the re-registration starts the next worker right away
+	lastWorker := rng.Intn(4) == 0
 	nNames := 2 + rng.Intn(4)
+	if lastWorker {
+		nNames = 1
+	}
 	first := make([]*swk, nNames)
 	for i := range first {
 		w := newW(fmt.Sprintf("n%d", i), "pre")
@@ -43,14 +49,18 @@ func reregOne(c *vf.Ctx, seed int64, batch, iter int, race bool) {
 		first[i] = w
 		all = append(all, w)
 	}
-	for i, n := 0, rng.Intn(3); i < n; i++ { // bystanders: only leave when cancelled
+	nBy := rng.Intn(3)
+	if lastWorker {
+		nBy = 0
+	}
+	for i, n := 0, nBy; i < n; i++ { // bystanders: only leave when cancelled
 		w := newW(fmt.Sprintf("b%d", i), "pre")
 		call(d, w)
 		it.add(w)
 		all = append(all, w)
 	}
 	runQueries(d, queryPlan(rng, false, true), nil) // before Start
-	useRun := rng.Intn(4) == 0
+	useRun := rng.Intn(4) == 0 || lastWorker
 	var runRet atomic.Uint64
 	var runPanic atomic.Pointer[string]
 	var wg, spinWG sync.WaitGroup
@@ -100,6 +110,9 @@ func reregOne(c *vf.Ctx, seed int64, batch, iter int, race bool) {
 		old := first[i]
 		rr := rand.New(rand.NewSource(rng.Int63()))
 		rounds := 1 + rr.Intn(3)
+		if lastWorker {
+			rounds = 3
+		}
 		var plan []*swk
 		var leads []int
 		for r := 0; r < rounds; r++ {
@@ -184,6 +197,9 @@ func reregOne(c *vf.Ctx, seed int64, batch, iter int, race bool) {
 	T := shutRet.Load()
 	c.Count("stress_iterations", 1)
 	c.Count("rereg_iterations", 1)
+	if lastWorker {
+		c.Count("rereg_last_worker_mode", 1)
+	}
 	c.Count("stress_query_calls", nQueries)
 	c.Count("rereg_attempts", int(attempts.Load()))
 	c.Count("rereg_attempts_while_old_worker_exiting", int(whileExiting.Load()))
@@ -243,7 +259,7 @@ func reregOne(c *vf.Ctx, seed int64, batch, iter int, race bool) {
 		case !started:
 			viol("exit-rereg:accepted-not-started", fmt.Sprintf("BackgroundWorker(%s, order %d) returned nil on a running daemon but the handler was never started", w.name, w.order))
 		case !cancelled:
-			viol("exit-rereg:leaked-uncancelled-worker", fmt.Sprintf("BackgroundWorker(%s, order %d, kind %s) was accepted (call returned at tick %d) while the previous worker of that name was exiting; ShutdownAndWait returned at tick %d, the worker has not returned and its context is not cancelled", w.name, w.order, w.kind, w.callRet, T))
+			viol("exit-rereg:leaked-uncancelled-worker", fmt.Sprintf("BackgroundWorker(%s, order %d, kind %s) was accepted (call started at tick %d, returned at tick %d) while the previous worker of that name was exiting; ShutdownAndWait returned at tick %d, the worker has not returned and its context is not cancelled [lastWorker=%v run=%v runReturned=%d concurrentShutdown=%v names=%d] chain: %s", w.name, w.order, w.kind, w.callTick, w.callRet, T, lastWorker, useRun, RT, concurrentShutdown, nNames, chainOf(all, w.name)))
 		case rt == 0 || rt > T:
 			viol("wait:shutdownandwait-returned-before-worker", fmt.Sprintf("worker exit vs re-registration: ShutdownAndWait returned at tick %d, accepted worker %s returned at tick %d", T, w.name, rt))
 		default:
@@ -255,4 +271,19 @@ func reregOne(c *vf.Ctx, seed int64, batch, iter int, race bool) {
 			w.release()
 		}
 	}
+}
+
+func chainOf(all []*swk, name string) string {
+	var b strings.Builder
+	for _, w := range all {
+		if w.name != name {
+			continue
+		}
+		e := "nil"
+		if w.err != nil {
+			e = w.err.Error()
+		}
+		fmt.Fprintf(&b, "{%s order=%d call=%d..%d err=%s pan=%q started=%v returned=%v ret=%d runs=%d} ", w.kind, w.order, w.callTick, w.callRet, e, w.pan, w.started.Load(), w.returned.Load(), w.retTick.Load(), w.runs.Load())
+	}
+	return b.String()
 }
